@@ -35,6 +35,7 @@ Proof.
   destruct o; cbn [apply_opt c_store c_before_ctx]; try (split; assumption).
   - split; [intros _; rewrite count_persist_app; cbn; lia|discriminate].
   - destruct (c_store c) eqn:E; split; intros H; try discriminate; cbn; try lia; reflexivity.
+  - destruct (c_store c) eqn:E; split; intros H; try discriminate; cbn; try lia; reflexivity.
 Qed.
 
 Lemma fold_slot_inv : forall opts c, slot_inv c -> slot_inv (fold_left apply_opt opts c).
@@ -65,6 +66,7 @@ Proof.
   - destruct o; cbn [apply_opt c_store c_before_ctx]; try exact Hp.
     + rewrite count_persist_app, Hp. unfold count_store in Hc. cbn [filter length] in Hc.
       destruct (c_store c); cbn in *; lia.
+    + destruct (c_store c); reflexivity.
     + destruct (c_store c); reflexivity.
 Qed.
 
